@@ -5,7 +5,7 @@
 (* Use with Conf_Blowfish.cfg (SPECIFICATION XSpec).                       *)
 (***************************************************************************)
 EXTENDS Blowfish, Json, IOUtils
-VARIABLES l, inst
+VARIABLES tpos, inst
 Rec == ndJsonDeserialize(IOEnv.TRACE)
 OSched(t, k, x) == BlowfishSched(t, k, x)
 OEnc(ks, b) == BlowfishEnc(ks, b)
@@ -24,7 +24,7 @@ INSTANCE ConfBase
 BcState(ks) == [type |-> "Blowfish", ks |-> ks]
 Bc ==
     /\ IsEvent("bc")
-    /\ LET e == Rec[l] IN
+    /\ LET e == Rec[tpos] IN
        IF e.fn = "init"
        THEN /\ e.outcome = "ok"
             /\ inst' = Put(inst, e.id, BcState(InitState))
